@@ -37,6 +37,7 @@ func allScenarios() []*Scenario {
 	add("C05", "del-del-counter", true, th(c("SET", "@k0", "a"), c("SET", "@k3", "b")), th(c("DEL", "@k0")), th(c("DEL", "@k0")), th(c("KEYS", "*")))
 	add("C05", "same-shard-other-stripe", true, nil, th(c("SET", "@k0", "a")), th(c("SET", "@k3", "b")), th(c("KEYS", "*"), c("EXISTS", "@k0"), c("EXISTS", "@k3")))
 	add("C05", "same-stripe-other-key", true, nil, th(c("INCR", "@k0"), c("DEL", "@k0")), th(c("INCR", "@k1"), c("DEL", "@k1")), th(c("KEYS", "*")))
+	add("C05", "keys-twice-vs-set", true, nil, th(c("KEYS", "*"), c("KEYS", "*")), th(c("SET", "@k0", "a")), th(c("SET", "@k2", "b")))
 	add("C05", "get-set", true, th(c("SET", "@k0", "a")), th(c("GET", "@k0"), c("GET", "@k0")), th(c("SET", "@k0", "b")))
 	add("C05", "lrange-rpush", true, th(c("RPUSH", "@k0", "a")), th(c("LRANGE", "@k0", "0", "-1"), c("LLEN", "@k0")), th(c("RPUSH", "@k0", "b", "c")))
 	add("C05", "zrange-zadd", true, th(c("ZADD", "@k0", "1", "a")), th(c("ZRANGE", "@k0", "0", "-1"), c("ZRANK", "@k0", "b")), th(c("ZADD", "@k0", "0", "b")), th(c("ZREM", "@k0", "a")))
